@@ -121,6 +121,10 @@ class Fn:
         if self._pruned is not None:
             return
         self._pruned = True
+        self._vt = None
+        if getattr(self, "inlined", False):
+            self._vt_setup()
+            return
         consts = {}
         bad = set()
         for bi, blk in enumerate(self.blocks):
@@ -163,8 +167,167 @@ class Fn:
                     self._bstates[d].add(st2)
                     work.append((d, st2))
 
+    # ---- inlined views: the value a helper returned is known on each path (Ok / Err / Some / None / true / false);
+    #      the caller's test of it must not be taken both ways. Same exploration as the drop flags, over more values.
+    _VT_BRANCH = re.compile(r"ops::try_trait::Try>?::branch$")
+    _VT_PRED = re.compile(r"(result::Result::<T, E>::(is_ok|is_err)|option::Option::<T>::(is_some|is_none))$")
+    _VT_SAME = re.compile(r"(result::Result::<T, E>|option::Option::<T>)::(map|map_err|as_ref|as_mut|cloned|copied|as_deref|inspect|inspect_err)$")
+    _VT_OK = re.compile(r"result::Result::<T, E>::(ok|err)$|option::Option::<T>::(ok_or|ok_or_else)$")
+
+    def _vt_setup(self):
+        nloc = len(self.locals)
+        bad = set()
+        for blk in self.blocks:
+            for s in blk["stmts"]:
+                if s["k"] != "assign":
+                    continue
+                if s["lhs"]["p"]:
+                    bad.add(s["lhs"]["l"])
+                rv = s["rv"]
+                if rv["k"] == "rawptr" or (rv["k"] == "ref" and rv.get("mut") and "*" not in rv["place"]["p"]):
+                    bad.add(rv["place"]["l"])
+            t = blk["term"]
+            if t["k"] == "call" and "dest" in t and t["dest"]["p"]:
+                bad.add(t["dest"]["l"])
+        # relevant = feeds a switch through copies / discriminant reads / shared refs / modelled calls
+        rel = set()
+        for blk in self.blocks:
+            t = blk["term"]
+            if t["k"] == "switch" and t["discr"]["k"] in ("copy", "move") and not t["discr"]["p"]:
+                rel.add(t["discr"]["l"])
+        changed = True
+        while changed:
+            changed = False
+            for blk in self.blocks:
+                for s in blk["stmts"]:
+                    if s["k"] == "assign" and not s["lhs"]["p"] and s["lhs"]["l"] in rel:
+                        rv = s["rv"]
+                        src = None
+                        if rv["k"] == "use" and rv["op"]["k"] in ("copy", "move") and not rv["op"]["p"]:
+                            src = rv["op"]["l"]
+                        elif rv["k"] in ("discr", "ref") and not rv["place"]["p"]:
+                            src = rv["place"]["l"]
+                        if src is not None and src not in rel:
+                            rel.add(src)
+                            changed = True
+                t = blk["term"]
+                if t["k"] == "call" and "dest" in t and not t["dest"]["p"] and t["dest"]["l"] in rel and t["args"]:
+                    c = t["callee"]
+                    if self._VT_BRANCH.search(c) or self._VT_PRED.search(c) or self._VT_SAME.search(c) or self._VT_OK.search(c):
+                        a = t["args"][0]
+                        if a["k"] in ("copy", "move") and not a["p"] and a["l"] not in rel:
+                            rel.add(a["l"])
+                            changed = True
+        self._flags = sorted(l for l in rel if l not in bad and l > self.arg_count and l < nloc)
+        self._fidx = {f: i for i, f in enumerate(self._flags)}
+        self._vt = True
+        init = tuple([None] * len(self._flags))
+        self._bstates = defaultdict(set)
+        self._feas = defaultdict(set)
+        work = [(0, init)]
+        self._bstates[0].add(init)
+        n = 0
+        while work:
+            b, st = work.pop()
+            n += 1
+            if n > 200000:     # give up precision, never soundness: fall back to all edges
+                self._flags, self._fidx, self._vt = [], {}, None
+                self._bstates = defaultdict(set)
+                self._feas = defaultdict(set)
+                init = ()
+                work = [(0, init)]
+                self._bstates[0].add(init)
+                n = -10**9
+                continue
+            for (d, lab, st2) in self._step(b, st, True):
+                self._feas[b].add((d, lab))
+                if st2 not in self._bstates[d]:
+                    self._bstates[d].add(st2)
+                    work.append((d, st2))
+
+    def _vt_val(self, cur, op):
+        if op["k"] == "const":
+            return int(op["v"]) if isinstance(op.get("v"), (int, bool)) else None
+        if op["k"] in ("copy", "move") and not op["p"] and op["l"] in self._fidx:
+            v = cur[self._fidx[op["l"]]]
+            if isinstance(v, tuple) and v[0] == "R":
+                return cur[self._fidx[v[1]]] if v[1] in self._fidx else None
+            return v
+        return None
+
+    def _vt_step_state(self, b, st):
+        cur = list(st)
+        fidx = self._fidx
+        for s in self.blocks[b]["stmts"]:
+            if s["k"] != "assign":
+                continue
+            l = s["lhs"]
+            if l["p"] or l["l"] not in fidx:
+                continue
+            rv = s["rv"]
+            val = None
+            if rv["k"] == "use":
+                o = rv["op"]
+                if o["k"] == "const":
+                    val = int(o["v"]) if isinstance(o.get("v"), (int, bool)) else None
+                elif not o["p"] and o["l"] in fidx:
+                    val = cur[fidx[o["l"]]]
+            elif rv["k"] == "agg" and rv.get("variant") and "adt" in rv:
+                val = ("V", rv["variant"])
+            elif rv["k"] == "discr" and not rv["place"]["p"] and rv["place"]["l"] in fidx:
+                v = cur[fidx[rv["place"]["l"]]]
+                if isinstance(v, tuple) and v[0] == "V":
+                    for idx, name in rv["variants"]:
+                        if name == v[1]:
+                            val = idx
+            elif rv["k"] == "ref" and not rv.get("mut") and not rv["place"]["p"] and rv["place"]["l"] in fidx:
+                val = ("R", rv["place"]["l"])
+            cur[fidx[l["l"]]] = val
+        t = self.blocks[b]["term"]
+        if t["k"] == "call" and "dest" in t and not t["dest"]["p"] and t["dest"]["l"] in fidx:
+            val = None
+            c = t["callee"]
+            a = self._vt_val(cur, t["args"][0]) if t["args"] else None
+            tag = a[1] if isinstance(a, tuple) and a[0] == "V" else None
+            if tag is not None:
+                if self._VT_BRANCH.search(c):
+                    val = ("V", "Continue") if tag in ("Ok", "Some", "Continue") else (("V", "Break") if tag in ("Err", "None", "Break") else None)
+                elif self._VT_PRED.search(c):
+                    name = c.rsplit("::", 1)[1]
+                    pos = tag in ("Ok", "Some")
+                    val = int(pos if name in ("is_ok", "is_some") else not pos)
+                elif self._VT_SAME.search(c):
+                    val = ("V", tag)
+                elif self._VT_OK.search(c):
+                    name = c.rsplit("::", 1)[1]
+                    if name == "ok":
+                        val = ("V", "Some" if tag == "Ok" else "None")
+                    elif name == "err":
+                        val = ("V", "None" if tag == "Ok" else "Some")
+                    else:
+                        val = ("V", "Ok" if tag == "Some" else "Err")
+            cur[fidx[t["dest"]["l"]]] = val
+        return tuple(cur)
+
     def _step(self, b, st, cleanup):
         """Feasible (dst, label, state') from block b entered with flag valuation st."""
+        if self._vt:
+            st2 = self._vt_step_state(b, st)
+            t = self.blocks[b]["term"]
+            val = None
+            if t["k"] == "switch" and t["discr"]["k"] in ("copy", "move") and not t["discr"]["p"] and t["discr"]["l"] in self._fidx:
+                val = st2[self._fidx[t["discr"]["l"]]]
+                if not isinstance(val, int):
+                    val = None
+            listed = [v for v, _ in t["targets"]] if t["k"] == "switch" else []
+            out = []
+            for (d, lab) in self.edges(b, cleanup):
+                if val is not None and t["k"] == "switch":
+                    ok = (val not in listed) if lab[1] is None else (lab[1] == val)
+                    if not ok:
+                        continue
+                out.append((d, lab, st2))
+            return out
         if self._flags:
             cur = list(st)
             for s in self.blocks[b]["stmts"]:
@@ -491,6 +654,110 @@ class Facts:
                 self.formats.append(fm)
         self._cg = None
         self._summ = {}
+        self.absorbed = {}
+        if not os.environ.get("VERIF_NO_NORMALISE"):
+            self.normalise()
+
+    # ---- helper absorption: a crate-local function the rules have never seen is part of its callers
+    def normalise(self):
+        """Functions that are not in rules/known_fns.json (the items of the tree the rules were confirmed on), are not
+        public API, not trait-impl methods, not coroutines and not recursive are *helpers somebody extracted*: they are
+        inlined into their callers (depth 5) and, when every use is a direct call, dropped as standalone bodies. On the
+        confirmed tree this is the identity. Whole-program scans and anchored rules then see through extracted helpers."""
+        kp = os.path.join(os.path.dirname(os.path.abspath(__file__)), "known_fns.json")
+        if not os.path.exists(kp):
+            return
+        with open(kp) as fh:
+            known = {c: set(v) for c, v in json.load(fh).items()}
+
+        def base(p):
+            return re.sub(r"#\d+$", "", p)
+        cand = {}
+        for p, f in self.fns.items():
+            if f.crate not in known or f.kind == "Closure" or f.j.get("coroutine") or base(p) in known[f.crate]:
+                continue
+            if p.startswith("<") and " as " in p.split(">::")[0]:
+                continue                      # trait impl method: called through the trait, keeps its identity
+            if f.j.get("exported") or (f.j.get("pub") and f.j.get("reachable")):
+                continue                      # new public API: a root of its own
+            if any(b["term"]["k"] == "yield" for b in f.blocks):
+                continue
+            cand[p] = f
+        if not cand:
+            return
+        # drop recursive candidates (direct or mutual among candidates)
+        calls = {p: {f.term(b)["callee"] for b in range(len(f.blocks)) if f.term(b)["k"] == "call"} & set(cand) for p, f in cand.items()}
+
+        def reaches(a, b, seen):
+            for c in calls.get(a, ()):
+                if c == b or (c not in seen and not seen.add(c) and reaches(c, b, seen)):
+                    return True
+            return False
+        for p in [p for p in cand if reaches(p, p, set())]:
+            del cand[p]
+        fnrefs = set()
+        direct = set()
+        for p, f in self.fns.items():
+            for blk in f.blocks:
+                t = blk["term"]
+                if t["k"] == "call":
+                    if t["callee"] in cand and len(t["args"]) == cand[t["callee"]].arg_count:
+                        direct.add(t["callee"])
+                    for a in t["args"]:
+                        if a["k"] == "const" and a.get("fn") in cand:
+                            fnrefs.add(a["fn"])
+                for st in blk["stmts"]:
+                    if st["k"] == "assign":
+                        for o in _operands_of_rv(st["rv"]):
+                            if o["k"] == "const" and o.get("fn") in cand:
+                                fnrefs.add(o["fn"])
+        inl = {p for p in cand if p in direct}
+        if inl:
+            def should(g):
+                return g.path in inl
+            for p, f in list(self.fns.items()):
+                if p in inl:
+                    continue
+                if any(blk["term"]["k"] == "call" and blk["term"]["callee"] in inl for blk in f.blocks):
+                    self.fns[p] = inline_calls(self, f, should, depth=5)
+            for p in inl:
+                if p not in fnrefs:
+                    self.absorbed[p] = self.fns.pop(p)
+        # helpers passed by name become closures of the function that names them
+        n = 0
+        for p, f in list(self.fns.items()):
+            if p in cand:
+                continue
+            j = None
+            for bi, blk in enumerate(f.blocks):
+                t = blk["term"]
+                if t["k"] != "call":
+                    continue
+                for ai, a in enumerate(t["args"]):
+                    if a["k"] == "const" and a.get("fn") in cand:
+                        if j is None:
+                            j = json.loads(json.dumps(f.j))
+                        g = self.fns.get(a["fn"], cand[a["fn"]])
+                        n += 1
+                        cpath = "%s::{closure#fn:%s#%d}" % (re.sub(r"(::\{closure#[^}]*\})+$", "", p), g.path.rsplit("::", 1)[1], n)
+                        self.fns[cpath] = closureise(g, cpath, f.j.get("root", p))
+                        nl = len(j["locals"])
+                        j["locals"].append("[closure@%s]" % cpath)
+                        j["blocks"][bi]["stmts"].append({"k": "assign", "lhs": {"l": nl, "p": []}, "span": t.get("span", ""),
+                                                         "rv": {"k": "agg", "closure": cpath, "ops": [], "fields": []}})
+                        j["blocks"][bi]["term"]["args"][ai] = {"k": "move", "l": nl, "p": []}
+            if j is not None:
+                nf = Fn(j, f.crate)
+                for attr in ("inlined", "inlined_paths"):
+                    if hasattr(f, attr):
+                        setattr(nf, attr, getattr(f, attr))
+                self.fns[p] = nf
+        for p in fnrefs:
+            if p in self.fns and p not in direct:
+                self.absorbed[p] = self.fns.pop(p)
+            elif p in self.fns and p in inl:
+                self.absorbed[p] = self.fns.pop(p)
+        self.fn_items_as_values = fnrefs
 
     def n_bodies(self):
         return len(self.fns)
@@ -506,7 +773,8 @@ class Facts:
         return [f for p, f in self.fns.items() if rx.search(p)]
 
     def closures_of(self, fn):
-        return [f for f in self.fns.values() if f.j.get("root") == fn.path and f.kind == "Closure"]
+        roots = {fn.path} | set(getattr(fn, "inlined_paths", ()))
+        return [f for f in self.fns.values() if f.j.get("root") in roots and f.kind == "Closure"]
 
     def implements(self, self_ty_re, trait_re):
         rs, rt = re.compile(self_ty_re), re.compile(trait_re)
@@ -1019,6 +1287,60 @@ def origin_strs(origins, limit=8):
 
 # --------------------------------------------------------------------------- condition edges (P3 helpers)
 
+def selection_blocks(fn, prov, op, pred, limit=16):
+    """Where does a value with an origin accepted by `pred` get *selected* into the chain that ends in operand `op`?
+    Walks the definitions back from op while every definition carries such an origin; at the first local that has both
+    carrying and non-carrying definitions (a merge: `dst = if c { &mut a } else { &mut b }`, a helper's return slot)
+    the blocks of the carrying definitions are returned. None when the chain never splits (the site itself is the place
+    to ask for a guard). A condition that guards the selection guards every later use of the selected value."""
+    cur = op
+    seen = set()
+    for _ in range(limit):
+        if cur is None or cur.get("k") not in ("copy", "move") or cur["l"] in seen:
+            return None
+        l = cur["l"]
+        seen.add(l)
+        if 1 <= l <= fn.arg_count:
+            return None
+        carrying, other = [], []
+        for (b, i, s) in fn.defs(l):
+            if i == "term":
+                if s["dest"]["p"]:
+                    continue
+                src = prov._through_call(fn, b, s, (), 0, set())
+            else:
+                if s["k"] != "assign":
+                    continue
+                src = prov._of_rvalue(fn, b, s["rv"], (), 0, set())
+            (carrying if any(pred(o) for o in src) else other).append((b, i, s))
+        if not carrying:
+            return None
+        if other:
+            return sorted({b for b, _, _ in carrying})
+        if len(carrying) != 1:
+            return None
+        b, i, s = carrying[0]
+        nxt = None
+        if i == "term":
+            for a in s["args"]:
+                if a["k"] in ("copy", "move") and any(pred(o) for o in prov.of_operand(fn, a)):
+                    nxt = a
+                    break
+        else:
+            rv = s["rv"]
+            if rv["k"] in ("use", "cast"):
+                nxt = rv["op"]
+            elif rv["k"] in ("ref", "rawptr"):
+                nxt = {"k": "copy", "l": rv["place"]["l"], "p": []}
+            elif rv["k"] == "agg":
+                for a in rv["ops"]:
+                    if a["k"] in ("copy", "move") and any(pred(o) for o in prov.of_operand(fn, a)):
+                        nxt = a
+                        break
+        cur = nxt
+    return None
+
+
 def bool_cond_edges(fn, prov, origin_pred, want):
     """Edges of boolean switches whose tested value has an origin accepted by origin_pred(o),
     taken when that origin's value is `want`. Negations (`!x`) met on the way flip the polarity.
@@ -1096,6 +1418,32 @@ def sites_star(facts, fn, term_pred, depth=4):
         memo[path] = res
         return res
 
+    def closure_agg(a, hops=6):
+        """The closure aggregate an operand is a (copy of a) move of, if it is constructed in fn."""
+        for _ in range(hops):
+            if a is None or a["k"] not in ("copy", "move") or a["p"]:
+                return None
+            sd = fn.single_def(a["l"])
+            if not sd or sd[1] == "term" or sd[2]["k"] != "assign":
+                return None
+            rv = sd[2]["rv"]
+            if rv["k"] == "agg" and "closure" in rv:
+                return rv
+            a = rv["op"] if rv["k"] == "use" else None
+        return None
+
+    def closure_contains(rv, d=4):
+        """The closure's body contains such a call, or it captured a closure that does (and may invoke it)."""
+        if contains(rv["closure"], depth):
+            return True
+        if d <= 0:
+            return False
+        for o in rv.get("ops", []):
+            inner = closure_agg(o)
+            if inner is not None and closure_contains(inner, d - 1):
+                return True
+        return False
+
     out = []
     for b in fn.calls():
         t = fn.term(b)
@@ -1107,12 +1455,10 @@ def sites_star(facts, fn, term_pred, depth=4):
             continue
         # closure arguments constructed here
         for a in t["args"]:
-            if a["k"] in ("copy", "move") and not a["p"]:
-                sd = fn.single_def(a["l"])
-                if sd and sd[1] != "term" and sd[2]["k"] == "assign" and sd[2]["rv"]["k"] == "agg" \
-                        and "closure" in sd[2]["rv"] and contains(sd[2]["rv"]["closure"], depth):
-                    out.append(b)
-                    break
+            rv = closure_agg(a)
+            if rv is not None and closure_contains(rv):
+                out.append(b)
+                break
     return out
 
 
@@ -1257,6 +1603,39 @@ def _shift_rv(rv, off):
     return rv
 
 
+def _remap_locals(x, f):
+    """Deep copy of a MIR JSON fragment with every local index l replaced by f(l)."""
+    if isinstance(x, list):
+        return [_remap_locals(e, f) for e in x]
+    if isinstance(x, dict):
+        if isinstance(x.get("l"), int) and isinstance(x.get("p"), list):
+            q = {k: _remap_locals(v, f) for k, v in x.items() if k not in ("l", "p")}
+            q["l"] = f(x["l"])
+            q["p"] = [(("[_%d]" % f(int(e[2:-1]))) if isinstance(e, str) and re.fullmatch(r"\[_\d+\]", e) else e) for e in x["p"]]
+            return q
+        return {k: _remap_locals(v, f) for k, v in x.items()}
+    return x
+
+
+def closureise(g, path, root):
+    """A closure-shaped copy of function item g (an environment parameter in front of its own), so that a helper passed
+    by name -- `iter.map(convert_span)`, `spawn(run_once)` -- is seen exactly like the closure it replaced."""
+    j = dict(g.j)
+
+    def f(l):
+        return l + 1 if l >= 1 else 0
+    j["blocks"] = _remap_locals(g.j["blocks"], f)
+    j["names"] = _remap_locals(g.j.get("names", []), f)
+    j["locals"] = [g.locals[0], "()"] + list(g.locals[1:])
+    j["arg_count"] = g.arg_count + 1
+    j["path"] = path
+    j["kind"] = "Closure"
+    j["root"] = root
+    j["captures"] = []
+    j["fn_item"] = g.path
+    return Fn(j, g.crate)
+
+
 def inline_calls(facts, fn, should_inline, depth=2):
     """A copy of fn in which calls to crate-local callees accepted by should_inline(callee Fn) are replaced by the
     callee's body (locals and blocks renumbered, parameters bound to the arguments, returns turned into gotos).
@@ -1271,10 +1650,12 @@ def inline_calls(facts, fn, should_inline, depth=2):
     nb = len(blocks)
     for bi in range(nb):
         t = blocks[bi]["term"]
-        if t["k"] != "call" or t.get("target") is None:
+        if t["k"] != "call":
             continue
         g = facts.fns.get(t["callee"])
         if g is None or g.kind == "Closure" or g is fn or not should_inline(g) or len(t["args"]) != g.arg_count:
+            continue
+        if t.get("target") is None and any(b["term"]["k"] == "return" for b in g.blocks):
             continue
         if any(b["term"]["k"] == "yield" for b in g.blocks):
             continue
